@@ -77,11 +77,60 @@ def build_coq(clean=False):
     if not os.path.exists(mk) or os.path.getmtime(mk) < os.path.getmtime(os.path.join(COQ, "_CoqProject")):
         sh(["coq_makefile", "-f", "_CoqProject", "-o", "Makefile"], cwd=COQ, timeout=120)
     t = time.time()
+    global COQ_BROKEN
+    COQ_BROKEN = None
     p = sh(["make", "-C", COQ, "-f", "Makefile", "-j16"], timeout=3600, check=False)
     if p.returncode != 0:
-        raise CheckError("Coq development does not build:\n" + (p.stdout.decode(errors="replace") +
-                                                                   p.stderr.decode(errors="replace"))[-4000:])
+        # A proof or a generated-constant check no longer goes through on this tree.  Build whatever
+        # still builds (the executable model and the correspondence files do not depend on the proof
+        # files), so that the check can go on to search for a concrete failing input; the broken
+        # obligation is reported by the caller.
+        p2 = sh(["make", "-C", COQ, "-f", "Makefile", "-j16", "-k"], timeout=3600, check=False)
+        text = p2.stdout.decode(errors="replace") + p2.stderr.decode(errors="replace")
+        errs = re.findall(r'(File "\./[^"]+", line \d+, characters [\d-]+:\nError:(?:.|\n)*?)(?=\nmake|\nFile "|\Z)', text)
+        global COQ_FAILED
+        COQ_FAILED = sorted(set(re.findall(r'File "\./([\w]+)\.v", line \d+, characters [\d-]+:\nError', text))) or ["?"]
+        COQ_BROKEN = "Coq development does not build on this tree; broken: " + \
+            ("\n---\n".join(e[:1200] for e in errs[:6]) if errs else text[-3000:])
+        if not os.path.exists(os.path.join(COQ, "Base.vo")):
+            raise CheckError(COQ_BROKEN)
     return time.time() - t
+
+
+COQ_BROKEN = None
+COQ_FAILED = []
+CURRENT = None
+
+
+def coq_closure(module):
+    """Names of the development's files the module depends on (transitively), itself included."""
+    p = sh(["coqdep", "-Q", ".", "Calc"] + sorted(f for f in os.listdir(COQ) if f.endswith(".v")),
+           cwd=COQ, timeout=300, check=False)
+    deps = {}
+    for ln in p.stdout.decode(errors="replace").splitlines():
+        m = re.match(r"(\w+)\.vo[^:]*:\s*(.*)$", ln)
+        if m:
+            deps[m.group(1)] = set(re.findall(r"(\w+)\.vo\b", m.group(2)))
+    seen, todo = set(), [module]
+    while todo:
+        x = todo.pop()
+        if x in seen:
+            continue
+        seen.add(x)
+        todo.extend(deps.get(x, ()))
+    return seen
+
+
+def coq_broken_for(module, extra=("CheckConsts", "GenConsts")):
+    """The build problem, if it concerns this property: a file the property's theorems depend on, or the
+    re-check of the constants read from the source, no longer compiles."""
+    if not COQ_BROKEN:
+        return None
+    rel = coq_closure(module) | set(extra)
+    hit = [f for f in COQ_FAILED if f in rel or f == "?"]
+    if not hit:
+        return None
+    return "%s [files: %s]" % (COQ_BROKEN, ", ".join(hit))
 
 
 def coqchk_module(module, timeout=7200):
@@ -421,6 +470,8 @@ class Run:
         self.violations = []   # (kind, replay path, no_input flag)
         self.known = []
         self.notes = []
+        global CURRENT
+        CURRENT = self
 
     def violation(self, payload, no_failing_input=False):
         payload = dict(payload)
@@ -452,8 +503,26 @@ class Run:
         for what in self.known:
             print("KNOWN-FINDING: property=%s %s" % (self.prop, what))
         seen = set()
+        concrete = [p for p, noinp in self.violations if not noinp]
+        broken = [p for p, noinp in self.violations if noinp]
+        if concrete and broken:
+            # a proof obligation or correspondence broke AND the search found a failing input: the
+            # input is the replay; the broken obligations are recorded inside it
+            texts = []
+            for bp in broken:
+                try:
+                    texts.append(json.load(open(bp)).get("broken", ""))
+                except Exception:
+                    pass
+            for cp in set(concrete):
+                try:
+                    d = json.load(open(cp))
+                    d["broken_obligations"] = texts
+                    json.dump(d, open(cp, "w"), indent=1, default=str)
+                except Exception:
+                    pass
         for path, noinp in self.violations:
-            if path in seen:
+            if path in seen or (noinp and concrete):
                 continue
             seen.add(path)
             line = "VIOLATION property=%s replay=%s" % (self.prop, path)
